@@ -524,7 +524,7 @@ func RenderFile(pkg string, funcs []Func, typeDecl, generic bool) string {
 		if len(funcs) > 0 {
 			st = []string{"int", "int64", "int32", "uint16"}[(funcs[0].Shape.P[0]+len(funcs))%4]
 		}
-		sb.WriteString("type scaleT = " + st + "\n\nfunc scaleBy(v, k scaleT) scaleT {\n\treturn v*k + 1\n}\n\n")
+		sb.WriteString("type scaleT = " + st + "\n\nfunc scaleBy(v, k " + st + ") " + st + " {\n\treturn v*k + 1\n}\n\nfunc scaleUse(n int) int {\n\tf := scaleBy\n\treturn int(f(scaleT(n), 3)) + int(scaleBy(2, scaleT(n)))\n}\n\n")
 	}
 	if generic {
 		sb.WriteString(`func MapAll[T any](xs []T, f func(T) T) []T {
